@@ -464,7 +464,10 @@ def run(ctx: Ctx):
         try:
             doc = zoo.cli_json(argv)
         except Exception as e:
-            raise Machinery(f"cli failed for zoo {name}: {e}")
+            # the CLI crashes on some option combinations (counted by C19); such a zoo entry is skipped, not a verdict
+            ctx.note(f"zoo entry {name} skipped: torchtree-cli did not emit a configuration ({str(e)[:90]})")
+            ctx.add("zoo_entries_skipped")
+            continue
         run_graph(ctx, name, doc, upto, quick)
     if ctx.cov.get("flag_mismatch_steps"):
         ctx.notes.append(f"MODEL-DRIFT: {ctx.cov['flag_mismatch_steps']} replayed steps where real cache flags differ from the ModelGraph state (extraction imprecise; verdicts come from the fresh-copy comparison)")
